@@ -63,7 +63,7 @@ pub fn generate(rng: &mut Rng, tier: Tier) -> Value {
     } else {
         let n = rng.range(1, if tier == Tier::Quick { 3 } else { 5 }) as usize;
         let weak = rng.chance(1, 4);
-        let (mut ks, mut names) = kernels::compose(rng, "sp", n);
+        let (mut ks, mut names) = kernels::compose(rng, "spd", n);
         if weak {
             let k = kernels::KERNELS.iter().find(|k| k.name == "weak-dropped").expect("kernel");
             for _ in 0..rng.range(1, 2) {
@@ -384,7 +384,7 @@ pub const PROP: Prop = Prop {
     generate,
     execute,
     shrink,
-    rule: "one run = one program (1..3 kernels out of 34 feature kernels, possibly split across evaluations, one of 858 harvested test groups = several evaluations sharing a context, or — 1 run in 8 — a fault-free module graph from the C17 generator evaluated twice through the simulated loader) x evaluation mode (sync / budget 1..256 with collections at yields) x collection schedule (every k-th allocation for k in {1,2,3,7,64} — k=1 enumerates every allocation point of the program —, seeded Bernoulli at 0.2..20 %, host-entry and job boundaries), executed under the schedule and under 'never collect'; non-trivial = at least one collection was injected; distinct = distinct (program, schedule, budget, allocation points, collections fired)",
+    rule: "one run = one program (1..3 kernels out of 41 feature kernels, possibly split across evaluations, one of 858 harvested test groups = several evaluations sharing a context, or — 1 run in 8 — a fault-free module graph from the C17 generator evaluated twice through the simulated loader) x evaluation mode (sync / budget 1..256 with collections at yields) x collection schedule (every k-th allocation for k in {1,2,3,7,64} — k=1 enumerates every allocation point of the program —, seeded Bernoulli at 0.2..20 %, host-entry and job boundaries), executed under the schedule and under 'never collect'; non-trivial = at least one collection was injected; distinct = distinct (program, schedule, budget, allocation points, collections fired)",
     real: &["lexer/parser/compiler/VM/builtins", "boa_gc collector and allocator", "SimpleJobExecutor", "WeakRef/FinalizationRegistry machinery"],
     stub: &["collection trigger decision (hook H1)", "SimClock", "SimHooks", "print/weakobs natives"],
     assumptions: &[
